@@ -90,7 +90,8 @@ def pad_attr_tokens(f, sp, used_zchar_as_pad):
 # documentation strings are content: runs of blanks, tabs, line breaks (the token rule allows them), per cent signs, quotes and
 # comment look-alikes inside them must survive every tool untouched
 DOC_TEXTS = ['doc %d', 'doc %d', 'two  spaces   %d', 'tab\there %d', 'first line %d\nsecond line', 'line %d\n\n    indented third line\n', '100%% of %d %%d %%s %%v %%!',
-             '"quoted" \'q\' %d', '// not a comment %d', '{ } , ; [ ] : = %d', ' leading and trailing blank %d ', 'accents \u00e9\u00fc\u4e2d %d']
+             '"quoted" \'q\' %d', '// not a comment %d', '{ } , ; [ ] : = %d', ' leading and trailing blank %d ', 'accents \u00e9\u00fc\u4e2d %d',
+             'quantity left to fill, right? %d', "see @leftPad('0') @rightPad() @lengthOf(X) @tag(%d)", 'root packet match repeat options MetaData as true %d']
 
 
 def doc_tokens(f, sp):
